@@ -12,10 +12,12 @@ FACTMAP = {
                            "body_Program_handleSignals", "body_Program_handleResize", "body_Program_listenForResize",
                            "body_Program_checkResize", "body_Program_Kill", "body_Program_Quit",
                            "el_case_QuitMsg", "el_case_InterruptMsg", "el_case_BatchMsg",
-                           "order_standardRenderer_stop", "order_standardRenderer_kill", "body_standardRenderer_listen"],
+                           "order_standardRenderer_stop", "order_standardRenderer_kill", "body_standardRenderer_listen",
+                           "body_standardRenderer_halt", "body_standardRenderer_start"],   # the stop handshake: only with a running listener
     "C05": ["order_Program_shutdown", "order_Program_restoreTerminalState", "order_Program_Run", "order_Program_initTerminal",
-            "order_Program_disableMouse", "order_Program_recoverFromPanic", "calls"],
-    "C07": ["order_Program_Run", "order_Program_shutdown", "order_standardRenderer_stop", "calls", "locks"],
+            "order_Program_disableMouse", "order_Program_recoverFromPanic", "calls",
+            "body_Program_initInput", "body_Program_restoreInput"],   # the termios model (Tea/Render/Tty.lean)
+    "C07": ["order_Program_Run", "order_Program_shutdown", "order_standardRenderer_stop", "calls", "locks", "body_standardRenderer_halt"],
     "C12": ["order_Program_Run", "order_Program_disableMouse", "el_case_enterAltScreenMsg", "el_case_exitAltScreenMsg",
             "el_case_enableMouseCellMotionMsg_enableMouseAllMotionMsg", "el_case_disableMouseMsg", "el_case_showCursorMsg",
             "el_case_hideCursorMsg", "el_case_enableBracketedPasteMsg", "el_case_disableBracketedPasteMsg",
@@ -25,10 +27,10 @@ FACTMAP = {
     "C16": ["el_head", "el_tail", "calls", "sendcalls", "body_WithFilter", "sends", "body_Program_handleSignals", "body_Program_Send"],
     "C17": ["order_Program_exec", "order_Program_ReleaseTerminal", "order_Program_RestoreTerminal", "el_case_execMsg",
             "order_Program_restoreTerminalState", "body_Program_initCancelReader", "order_standardRenderer_stop",
-            "order_standardRenderer_start", "body_Program_readLoop", "body_Program_waitForReadLoop"],
+            "order_standardRenderer_start", "body_Program_readLoop", "body_Program_waitForReadLoop", "body_standardRenderer_halt"],
     "C18": ["body_Program_handleSignals", "body_Program_handleResize", "body_Program_listenForResize", "body_Program_checkResize",
             "el_case_windowSizeMsg", "order_Program_ReleaseTerminal", "order_Program_RestoreTerminal", "order_Program_Run"],
-    "C19": ["body_WithFPS", "calls", "body_standardRenderer_listen", "body_standardRenderer_start", "locks"],
+    "C19": ["body_WithFPS", "calls", "body_standardRenderer_listen", "body_standardRenderer_start", "body_standardRenderer_halt", "locks"],
     "C20": ["body_Every", "body_Tick"],
     "C09": ["bufsize"],
     "C15": ["bufsize"],
